@@ -108,7 +108,7 @@ def subscribeNow (s : Sys) (r : Ref) (t : Topic) : Sys × Option Subscription :=
   (s, (s.actors r).held.getLast?)
 
 def initM (node : Nat) : MState :=
-  let s := Sys.init.step (.spawn (guardRef node)) |>.step (.spawn (helperRef node))
+  let s := (Sys.init node).step (.spawn (guardRef node)) |>.step (.spawn (helperRef node))
   let s := (subscribeNow s (helperRef node) syncTopic).1
   { node := node, sys := s, names := [], autos := [], hooks := [], handles := [] }
 
@@ -294,6 +294,23 @@ def stepN (st : NState) (toks : List String) : NState × String :=
     let s1 := (st.n1.sys.step (.inject { sender := some (guardRef 1), msg := .statusChanged 2 false })).drainSA fuel
     let s2 := (st.n2.sys.step (.inject { sender := some (guardRef 2), msg := .statusChanged 1 false })).drainSA fuel
     finishN st { st with n1 := { st.n1 with sys := s1 }, n2 := { st.n2 with sys := s2 }, linked := true } "ok"
+  | [n, op, m] =>
+    -- the contact provider of node n reports that node m joined / left: a status change at n's subscription actor
+    if (n == "1" || n == "2") && (op == "announce" || op == "leave") then
+      if m != "1" && m != "2" then (st, "bad-op") else
+      let node := if n == "1" then 1 else 2
+      let peer := if m == "1" then 1 else 2
+      if peer != node && !st.linked then (st, "unlinked") else
+      let inj : Act := .inject { sender := some (guardRef node), msg := .statusChanged peer (op == "leave") }
+      if node == 1 then finishN st { st with n1 := { st.n1 with sys := (st.n1.sys.step inj).drainSA fuel } } "ok"
+      else finishN st { st with n2 := { st.n2 with sys := (st.n2.sys.step inj).drainSA fuel } } "ok"
+    else if n == "1" then
+      let (n1, res) := opM st.n1 [op, m]
+      if isQuiet res then (st, res) else finishN st { st with n1 := n1 } res
+    else if n == "2" then
+      let (n2, res) := opM st.n2 [op, m]
+      if isQuiet res then (st, res) else finishN st { st with n2 := n2 } res
+    else (st, "bad-op")
   | "1" :: rest =>
     if rest.isEmpty then (st, "bad-op") else
     let (n1, res) := opM st.n1 rest
